@@ -67,22 +67,22 @@ wrapped extent makes `mmap` fail) alike.  Hence `grow_to_max` does not hold of t
 `raise_high_water`. -/
 theorem grow_to_max_false :
     Accepted f7 ∧ ([4000, 4700] : List Int).sum ≤ f7.maxUnits ∧
-    panicOf (growAll true RM.growFreelistGeom f7 [4000, 4700]) = some .other ∧
-    panicOf (growAll false RM.growFreelistGeom f7 [4000, 4700]) = some .other ∧
-    reached (growAll true RM.growFreelistGeom f7 [4000]) = some (16 * 4096, 4000) := by
+    panicOf (growAll true RM.growFreelistGeomOld f7 [4000, 4700]) = some .other ∧
+    panicOf (growAll false RM.growFreelistGeomOld f7 [4000, 4700]) = some .other ∧
+    reached (growAll true RM.growFreelistGeomOld f7 [4000]) = some (16 * 4096, 4000) := by
   refine ⟨f7_accepted, by decide, by decide, by decide, by decide⟩
 
 /-- Growing straight to the maximum fails the same way (one call). -/
 theorem grow_to_max_false_single :
-    panicOf (growAll true RM.growFreelistGeom f7 [8700]) = some .other ∧
-    panicOf (growAll false RM.growFreelistGeom f7 [8700]) = some .other := by decide
+    panicOf (growAll true RM.growFreelistGeomOld f7 [8700]) = some .other ∧
+    panicOf (growAll false RM.growFreelistGeomOld f7 [8700]) = some .other := by decide
 
 /-! ## the code as written: what does hold (`…_partial`)
 
 Full target, false as shown above:
 `∀ l0, Accepted l0 → ∀ reqs, (∀ n ∈ reqs, 0 ≤ n) → reqs.sum ≤ l0.maxUnits →
-   ∃ l', growAll false RM.growFreelistGeom l0 reqs = .ok (some l') ∧ l'.highWater ≤ l0.limit ∧
-         l'.currentUnits = reqs.sum ∧ l'.currentUnits ≤ l'.currentCapacity`.
+   ∃ l', growAll false RM.growFreelistGeomOld l0 reqs = .ok (some l') ∧ l'.highWater ≤ l0.limit ∧
+         l'.currentUnits = reqs.sum ∧ l'.currentUnits ≤ l'.currentCapacityOld`.
 It holds under the extra hypothesis that whole blocks covering the table fit below the limit
 (`WholeBlocksFit`), e.g. when `limit = base + size_in_pages` pages and
 `pages_per_block ∣ size_in_pages`. -/
@@ -115,8 +115,8 @@ structure GrowInvO (l0 l : RM) (K : Nat) : Prop where
 /-- `current_capacity` on `k` whole blocks. -/
 theorem cap_whole (l : RM) (k : Nat) (hp : 1 ≤ l.pagesPerBlock)
     (hw : l.highWater = l.base + 4096 * (l.pagesPerBlock.toNat * k)) :
-    l.currentCapacity = l.unitsPerBlock * k - l.tab.heads - 1 := by
-  unfold RM.currentCapacity RM.unitsInFirstBlock bytesToPagesUp
+    l.currentCapacityOld = l.unitsPerBlock * k - l.tab.heads - 1 := by
+  unfold RM.currentCapacityOld RM.unitsInFirstBlock bytesToPagesUp
   rw [hw]
   have hP : l.pagesPerBlock = (l.pagesPerBlock.toNat : Int) := (Int.toNat_of_nonneg (by omega)).symm
   generalize hX : l.pagesPerBlock.toNat * k = X
@@ -147,8 +147,8 @@ theorem ceilDiv_mul_lt (a u : Int) (hu : 0 < u) (ha : 0 ≤ a + u - 1) :
 /-- One `grow_freelist` call of the code as written, when whole blocks fit. -/
 theorem growO_step (l0 l : RM) (K : Nat) (n : Int) (ha : Accepted l0) (hf : WholeBlocksFit l0 K)
     (hi : GrowInvO l0 l K) (hn : 0 ≤ n) (htot : n + l.currentUnits ≤ l.maxUnits) :
-    ∃ l', l.growFreelistGeom false n = .ok (l', true) ∧ GrowInvO l0 l' K ∧
-      l'.currentUnits = n + l.currentUnits ∧ l'.currentUnits ≤ l'.currentCapacity ∧
+    ∃ l', l.growFreelistGeomOld false n = .ok (l', true) ∧ GrowInvO l0 l' K ∧
+      l'.currentUnits = n + l.currentUnits ∧ l'.currentUnits ≤ l'.currentCapacityOld ∧
       l'.highWater ≤ l0.limit := by
   obtain ⟨⟨hb, hl, hm, hp, hh, hg⟩, ⟨k, hkK, hw⟩, hc0, hc1⟩ := hi
   obtain ⟨appb, ah0, ah1, au0, au1, alim, awin, _, _⟩ := ha
@@ -172,16 +172,16 @@ theorem growO_step (l0 l : RM) (K : Nat) (n : Int) (ha : Accepted l0) (hf : Whol
   have hfit' : l.base + 4096 * (l.pagesPerBlock.toNat * K) ≤ l.limit := by rw [hb, hp, hl]; exact hfit
   have hwlim : l.highWater ≤ l0.limit := by
     have := hmono k K hkK; rw [← hl]; omega
-  unfold RM.growFreelistGeom RM.growGeom
+  unfold RM.growFreelistGeomOld RM.growGeomOld
   simp only [hr, if_false, Bool.false_and, Bool.false_eq_true, bind, Except.bind, pure, Except.pure]
-  by_cases hcap : n + l.currentUnits > l.currentCapacity
-  · have hbl : l.blocksFor (n + l.currentUnits) =
-        Int.tdiv (n + l.currentUnits - l.currentCapacity + l.unitsPerBlock - 1) l.unitsPerBlock := by
-      simp [RM.blocksFor, hcap]
-    have hge := ceilDiv_mul_ge (n + l.currentUnits - l.currentCapacity) l.unitsPerBlock hu (by omega)
-    have hlt := ceilDiv_mul_lt (n + l.currentUnits - l.currentCapacity) l.unitsPerBlock hu (by omega)
+  by_cases hcap : n + l.currentUnits > l.currentCapacityOld
+  · have hbl : l.blocksForOld (n + l.currentUnits) =
+        Int.tdiv (n + l.currentUnits - l.currentCapacityOld + l.unitsPerBlock - 1) l.unitsPerBlock := by
+      simp [RM.blocksForOld, hcap]
+    have hge := ceilDiv_mul_ge (n + l.currentUnits - l.currentCapacityOld) l.unitsPerBlock hu (by omega)
+    have hlt := ceilDiv_mul_lt (n + l.currentUnits - l.currentCapacityOld) l.unitsPerBlock hu (by omega)
     rw [← hbl] at hge hlt
-    generalize l.blocksFor (n + l.currentUnits) = b at hge hlt ⊢
+    generalize l.blocksForOld (n + l.currentUnits) = b at hge hlt ⊢
     have hbpos : b > 0 := by
       by_cases h : 0 < b
       · exact h
@@ -214,9 +214,9 @@ theorem growO_step (l0 l : RM) (K : Nat) (n : Int) (ha : Accepted l0) (hf : Whol
     have hnewlim : l.base + 4096 * (l.pagesPerBlock.toNat * (k + bn)) ≤ l.limit := by
       have := hmono (k + bn) K hkb
       omega
-    have hraise : l.raiseHighWater false (bn : Int) =
+    have hraise : l.raiseHighWaterOld false (bn : Int) =
         .ok { l with highWater := l.base + 4096 * (l.pagesPerBlock.toNat * (k + bn)) } := by
-      unfold RM.raiseHighWater
+      unfold RM.raiseHighWaterOld
       have h1 : (l.highWater == l.limit) = false := by simpa using hne
       have h2 : ¬ (l.highWater + (l.pagesPerBlock * (bn : Int)).toNat * 4096 > l.limit) := by
         rw [hnew]; omega
@@ -229,7 +229,7 @@ theorem growO_step (l0 l : RM) (K : Nat) (n : Int) (ha : Accepted l0) (hf : Whol
     have hcapNew := cap_whole { l with highWater := l.base + 4096 * (l.pagesPerBlock.toNat * (k + bn)) }
       (k + bn) hppb rfl
     have hcapNew' : n + l.currentUnits ≤
-        RM.currentCapacity { l with highWater := l.base + 4096 * (l.pagesPerBlock.toNat * (k + bn)) } := by
+        RM.currentCapacityOld { l with highWater := l.base + 4096 * (l.pagesPerBlock.toNat * (k + bn)) } := by
       rw [hcapNew]
       simp only [RM.unitsPerBlock] at hge hcapk ⊢
       rw [Int.natCast_add, Int.mul_add]
@@ -242,8 +242,8 @@ theorem growO_step (l0 l : RM) (K : Nat) (n : Int) (ha : Accepted l0) (hf : Whol
       simp [hbn, hraise, hcapNew', c2]
     · show l.base + 4096 * (l.pagesPerBlock.toNat * (k + bn)) ≤ l0.limit
       rw [← hl]; exact hnewlim
-  · have hbl : l.blocksFor (n + l.currentUnits) = 0 := by simp [RM.blocksFor, hcap]
-    have c1 : n + l.currentUnits ≤ l.currentCapacity := by omega
+  · have hbl : l.blocksForOld (n + l.currentUnits) = 0 := by simp [RM.blocksForOld, hcap]
+    have c1 : n + l.currentUnits ≤ l.currentCapacityOld := by omega
     have c2 : n + l.currentUnits ≤ l.maxUnits := by omega
     refine ⟨{ l with currentUnits := n + l.currentUnits }, ?_,
       ⟨⟨hb, hl, hm, hp, hh, hg⟩, ⟨k, hkK, hw⟩, by simp only; omega, by simp only; omega⟩, rfl, c1, hwlim⟩
@@ -256,9 +256,9 @@ and the size reached is within `current_capacity`. -/
 theorem grow_to_max_partial (l0 : RM) (K : Nat) (ha : Accepted l0) (hf : WholeBlocksFit l0 K) :
     ∀ (reqs : List Int) (l : RM), GrowInvO l0 l K →
     (∀ n ∈ reqs, 0 ≤ n) → l.currentUnits + reqs.sum ≤ l0.maxUnits →
-    ∃ l', growAll false RM.growFreelistGeom l reqs = .ok (some l') ∧ GrowInvO l0 l' K ∧
+    ∃ l', growAll false RM.growFreelistGeomOld l reqs = .ok (some l') ∧ GrowInvO l0 l' K ∧
       l'.currentUnits = l.currentUnits + reqs.sum ∧
-      (reqs ≠ [] → l'.currentUnits ≤ l'.currentCapacity ∧ l'.highWater ≤ l0.limit) := by
+      (reqs ≠ [] → l'.currentUnits ≤ l'.currentCapacityOld ∧ l'.highWater ≤ l0.limit) := by
   intro reqs
   induction reqs with
   | nil => intro l hi _ _; exact ⟨l, rfl, hi, by simp, by simp⟩
@@ -318,37 +318,6 @@ The minimal repair of `raw_memory_freelist.rs`:
 ```
 (For whole blocks the two capacity formulas agree.) -/
 
-/-- repaired `current_capacity`: the units whose entries fit in the mapped bytes. -/
-def RM.currentCapacityFixed (l : RM) : Int := ((l.highWater - l.base) / 8 : Nat) - l.tab.heads - 1
-
-/-- repaired `raise_high_water`. -/
-def RM.raiseHighWaterFixed (_debug : Bool) (l : RM) (blocks : Int) : M RM := do
-  let growExtent : Nat := (l.pagesPerBlock * blocks).toNat * 4096
-  if l.highWater == l.limit then throw .assert
-  let growExtent := if l.highWater + growExtent > l.limit then l.limit - l.highWater else growExtent
-  if !mmapOk l.highWater growExtent then throw .other
-  pure { l with highWater := (l.highWater + growExtent) % W64 }
-
-/-- `grow_list_by_blocks` (address-space part) over the repaired functions. -/
-def RM.growGeomFixed (debug : Bool) (l : RM) (blocks newMax : Int) : M RM := do
-  if debug && !(newMax ≤ l.grain || (Int.tdiv newMax l.grain) * l.grain == newMax) then throw .assert
-  let l ← (if blocks > 0 then l.raiseHighWaterFixed debug blocks else pure l)
-  if !(newMax ≤ l.currentCapacityFixed) then throw .other
-  if !(newMax ≤ l.maxUnits) then throw .other
-  pure { l with currentUnits := newMax }
-
-def RM.blocksForFixed (l : RM) (required : Int) : Int :=
-  if required > l.currentCapacityFixed then
-    Int.tdiv (required - l.currentCapacityFixed + l.unitsPerBlock - 1) l.unitsPerBlock
-  else 0
-
-/-- `grow_freelist` over the repaired functions. -/
-def RM.growFreelistGeomFixed (debug : Bool) (l : RM) (units : Int) : M (RM × Bool) := do
-  let required := units + l.currentUnits
-  if required > l.maxUnits then pure (l, false) else
-  let l ← l.growGeomFixed debug (l.blocksForFixed required) required
-  pure (l, true)
-
 /-- Invariant of a growing list (repaired code). -/
 structure GrowInv (l0 l : RM) : Prop where
   same : l.base = l0.base ∧ l.limit = l0.limit ∧ l.maxUnits = l0.maxUnits ∧
@@ -361,9 +330,9 @@ structure GrowInv (l0 l : RM) : Prop where
 /-- The repaired `raise_high_water` below the limit: maps `min(extent, limit - high_water)`. -/
 theorem raiseFixed_ok (d : Bool) (l : RM) (b : Int) (hne : l.highWater ≠ l.limit)
     (hhi : l.highWater ≤ l.limit) (hw : l.limit < 70368744177664) :
-    l.raiseHighWaterFixed d b =
+    l.raiseHighWater d b =
       .ok { l with highWater := min (l.highWater + (l.pagesPerBlock * b).toNat * 4096) l.limit } := by
-  unfold RM.raiseHighWaterFixed
+  unfold RM.raiseHighWater
   have h1 : (l.highWater == l.limit) = false := by simpa using hne
   simp only [h1, Bool.false_eq_true, if_false, mmapOk, W64, bind, Except.bind, pure, Except.pure]
   by_cases hc : l.highWater + (l.pagesPerBlock * b).toNat * 4096 > l.limit
@@ -385,8 +354,8 @@ without panicking, re-establishes the invariant, and the new size is within the 
 (release semantics; a debug build additionally asserts that growth happens in grains). -/
 theorem growFixed_step (l0 l : RM) (n : Int) (ha : Accepted l0) (hi : GrowInv l0 l)
     (hn : 0 ≤ n) (htot : n + l.currentUnits ≤ l.maxUnits) :
-    ∃ l', l.growFreelistGeomFixed false n = .ok (l', true) ∧ GrowInv l0 l' ∧
-      l'.currentUnits = n + l.currentUnits ∧ l'.currentUnits ≤ l'.currentCapacityFixed := by
+    ∃ l', l.growFreelistGeom false n = .ok (l', true) ∧ GrowInv l0 l' ∧
+      l'.currentUnits = n + l.currentUnits ∧ l'.currentUnits ≤ l'.currentCapacity := by
   obtain ⟨⟨hb, hl, hm, hp, hh, hg⟩, hlo, hhi, hc0, hc1⟩ := hi
   obtain ⟨appb, ah0, ah1, au0, au1, alim, awin, _, _⟩ := ha
   simp only [MAX_HEADS, MAX_UNITS] at ah1 au1
@@ -397,17 +366,17 @@ theorem growFixed_step (l0 l : RM) (n : Int) (ha : Accepted l0) (hi : GrowInv l0
   have hcapLimit : l0.maxUnits ≤ (((l0.limit - l0.base) / 8 : Nat) : Int) - l0.tab.heads - 1 := by
     omega
   have hr : ¬ (n + l.currentUnits > l.maxUnits) := by omega
-  unfold RM.growFreelistGeomFixed RM.growGeomFixed
+  unfold RM.growFreelistGeom RM.growGeom
   simp only [hr, if_false, Bool.false_and, Bool.false_eq_true, bind, Except.bind, pure, Except.pure]
-  by_cases hcap : n + l.currentUnits > l.currentCapacityFixed
+  by_cases hcap : n + l.currentUnits > l.currentCapacity
   · -- more blocks are needed
     have hu : 0 < l.unitsPerBlock := by simp only [RM.unitsPerBlock]; omega
-    have hbl : l.blocksForFixed (n + l.currentUnits) =
-        Int.tdiv (n + l.currentUnits - l.currentCapacityFixed + l.unitsPerBlock - 1) l.unitsPerBlock := by
-      simp [RM.blocksForFixed, hcap]
-    have hge := ceilDiv_mul_ge (n + l.currentUnits - l.currentCapacityFixed) l.unitsPerBlock hu (by omega)
+    have hbl : l.blocksFor (n + l.currentUnits) =
+        Int.tdiv (n + l.currentUnits - l.currentCapacity + l.unitsPerBlock - 1) l.unitsPerBlock := by
+      simp [RM.blocksFor, hcap]
+    have hge := ceilDiv_mul_ge (n + l.currentUnits - l.currentCapacity) l.unitsPerBlock hu (by omega)
     rw [← hbl] at hge
-    generalize l.blocksForFixed (n + l.currentUnits) = b at hge
+    generalize l.blocksFor (n + l.currentUnits) = b at hge
     have hbpos : b > 0 := by
       by_cases h : 0 < b
       · exact h
@@ -415,7 +384,7 @@ theorem growFixed_step (l0 l : RM) (n : Int) (ha : Accepted l0) (hi : GrowInv l0
         omega
     have hne : l.highWater ≠ l.limit := by
       intro heq
-      simp only [RM.currentCapacityFixed, heq] at hcap
+      simp only [RM.currentCapacity, heq] at hcap
       rw [hl, hb, hh] at hcap
       omega
     simp only [hbpos, if_true, raiseFixed_ok false l b hne hhi (by omega)]
@@ -428,22 +397,22 @@ theorem growFixed_step (l0 l : RM) (n : Int) (ha : Accepted l0) (hi : GrowInv l0
     rw [hq] at hge
     have hcapNew : n + l.currentUnits ≤
         (((min (l.highWater + q.toNat * 4096) l.limit - l.base) / 8 : Nat) : Int) - l.tab.heads - 1 := by
-      simp only [RM.currentCapacityFixed] at hge hcap
+      simp only [RM.currentCapacity] at hge hcap
       rcases Nat.le_total (l.highWater + q.toNat * 4096) l.limit with h | h
       · rw [Nat.min_eq_left h]; omega
       · rw [Nat.min_eq_right h, hl, hb, hh]; omega
     refine ⟨{ l with highWater := min (l.highWater + q.toNat * 4096) l.limit,
                      currentUnits := n + l.currentUnits }, ?_,
       ⟨⟨hb, hl, hm, hp, hh, hg⟩, ?_, ?_, by simp only; omega, by simp only; omega⟩, rfl, hcapNew⟩
-    · have c1 : n + l.currentUnits ≤ RM.currentCapacityFixed
+    · have c1 : n + l.currentUnits ≤ RM.currentCapacity
           { l with highWater := min (l.highWater + q.toNat * 4096) l.limit } := hcapNew
       have c2 : n + l.currentUnits ≤ l.maxUnits := by omega
       simp [c1, c2]
     · show l.base ≤ min _ _; omega
     · show min _ _ ≤ l.limit; omega
   · -- capacity suffices: no mapping
-    have hbl : l.blocksForFixed (n + l.currentUnits) = 0 := by simp [RM.blocksForFixed, hcap]
-    have c1 : n + l.currentUnits ≤ l.currentCapacityFixed := by omega
+    have hbl : l.blocksFor (n + l.currentUnits) = 0 := by simp [RM.blocksFor, hcap]
+    have c1 : n + l.currentUnits ≤ l.currentCapacity := by omega
     have c2 : n + l.currentUnits ≤ l.maxUnits := by omega
     refine ⟨{ l with currentUnits := n + l.currentUnits }, ?_,
       ⟨⟨hb, hl, hm, hp, hh, hg⟩, hlo, hhi, by simp only; omega, by simp only; omega⟩, rfl, c1⟩
@@ -458,9 +427,9 @@ every unit below it has both its entries mapped).  Every prefix of the request l
 same hypotheses, so this holds after each call ("throughout"). -/
 theorem grow_to_max_fixed (l0 : RM) (ha : Accepted l0) : ∀ (reqs : List Int) (l : RM), GrowInv l0 l →
     (∀ n ∈ reqs, 0 ≤ n) → l.currentUnits + reqs.sum ≤ l0.maxUnits →
-    ∃ l', growAll false RM.growFreelistGeomFixed l reqs = .ok (some l') ∧ GrowInv l0 l' ∧
+    ∃ l', growAll false RM.growFreelistGeom l reqs = .ok (some l') ∧ GrowInv l0 l' ∧
       l'.currentUnits = l.currentUnits + reqs.sum ∧
-      (reqs ≠ [] → l'.currentUnits ≤ l'.currentCapacityFixed) := by
+      (reqs ≠ [] → l'.currentUnits ≤ l'.currentCapacity) := by
   intro reqs
   induction reqs with
   | nil => intro l hi _ _; exact ⟨l, rfl, hi, by simp, by simp⟩
@@ -497,12 +466,12 @@ theorem growInv_fresh (l0 : RM) (ha : Accepted l0) : GrowInv l0 l0 := by
   exact ⟨⟨rfl, rfl, rfl, rfl, rfl, rfl⟩, by omega, by omega, by omega, by omega⟩
 
 /-- The repaired code grows the F7 list to its maximum, stopping exactly at the limit. -/
-example : reached (growAll true RM.growFreelistGeomFixed f7 [4000, 4700]) = some (17 * 4096, 8700) := by
+example : reached (growAll true RM.growFreelistGeom f7 [4000, 4700]) = some (17 * 4096, 8700) := by
   decide +kernel
 
 /-- On whole blocks the repaired capacity is the original one (instances; in general
 `(k·ppb·4096)/8 − heads − 1 = ppb·512 − heads − 1 + (k − 1)·ppb·512`). -/
-example : ({ f7 with highWater := f7.base + 16 * 4096 } : RM).currentCapacityFixed
-    = ({ f7 with highWater := f7.base + 16 * 4096 } : RM).currentCapacity := by decide
+example : ({ f7 with highWater := f7.base + 16 * 4096 } : RM).currentCapacity
+    = ({ f7 with highWater := f7.base + 16 * 4096 } : RM).currentCapacityOld := by decide
 
 end Mmtk.FreeList
